@@ -40,15 +40,15 @@ Print Assumptions C05_marked_failed.
 
 (* ... and a row marked failed is dirty for every later check (so it is
    retried by the next run, and no dependent can be found clean through it) *)
-Theorem C05_failed_is_dirty : forall fuel runid w c f r mx seen,
+Theorem C05_failed_is_dirty : forall fuel runid cyc w c f r mx seen,
   existsb (Nat.eqb f) seen = false ->
   r_failed r <> None ->
-  is_dirty (S fuel) runid w c f r mx seen = Ret (VDirty, w, c, []).
+  is_dirty (S fuel) runid cyc w c f r mx seen = Ret (VDirty, w, c, []).
 Proof. exact is_dirty_failed. Qed.
-Check C05_failed_is_dirty : forall fuel runid w c f r mx seen,
+Check C05_failed_is_dirty : forall fuel runid cyc w c f r mx seen,
   existsb (Nat.eqb f) seen = false ->
   r_failed r <> None ->
-  is_dirty (S fuel) runid w c f r mx seen = Ret (VDirty, w, c, []).
+  is_dirty (S fuel) runid cyc w c f r mx seen = Ret (VDirty, w, c, []).
 Print Assumptions C05_failed_is_dirty.
 
 (* propagation, one level at a time and hence along any chain of requests:
@@ -95,14 +95,14 @@ Print Assumptions C05_job_failure_propagates.
    the database, no later dirtiness check of the dependent ends "clean" --
    [r] is the copy of the dependent's row the check judges (unless that copy
    says the row has been dealt with in this very run) *)
-Theorem C05_dependent_of_failed_not_clean : forall fuel runid w c f r mx seen v w' c' evs,
-  is_dirty fuel runid w c f r mx seen = Ret (v, w', c', evs) ->
+Theorem C05_dependent_of_failed_not_clean : forall fuel runid cyc w c f r mx seen v w' c' evs,
+  is_dirty fuel runid cyc w c f r mx seen = Ret (v, w', c', evs) ->
   chk_is_checked c runid r f = false ->
   (exists d, In d (deps_of (dbs w) r f) /\ d_mode d = DModified /\ failed_at w (d_source d)) ->
   v <> VClean.
 Proof. exact dependent_of_failed_not_clean. Qed.
-Check C05_dependent_of_failed_not_clean : forall fuel runid w c f r mx seen v w' c' evs,
-  is_dirty fuel runid w c f r mx seen = Ret (v, w', c', evs) ->
+Check C05_dependent_of_failed_not_clean : forall fuel runid cyc w c f r mx seen v w' c' evs,
+  is_dirty fuel runid cyc w c f r mx seen = Ret (v, w', c', evs) ->
   chk_is_checked c runid r f = false ->
   (exists d, In d (deps_of (dbs w) r f) /\ d_mode d = DModified /\
              r_failed (get_row (dbs w) (d_source d)) <> None) ->
@@ -114,12 +114,12 @@ Print Assumptions C05_dependent_of_failed_not_clean.
    copies of dependency rows are taken when their parent's walk starts, which
    the proof handles).  Stated for an arbitrary stale copy the claim would be
    false of the code: the copy is written back whole. *)
-Theorem C05_failure_mark_survives_checks : forall g fuel runid w c f mx seen v w' c' evs,
-  is_dirty fuel runid w c f (load runid (dbs w) f) mx seen = Ret (v, w', c', evs) ->
+Theorem C05_failure_mark_survives_checks : forall g fuel runid cyc w c f mx seen v w' c' evs,
+  is_dirty fuel runid cyc w c f (load runid (dbs w) f) mx seen = Ret (v, w', c', evs) ->
   r_failed (get_row (dbs w) g) <> None -> r_failed (get_row (dbs w') g) <> None.
 Proof. exact is_dirty_keeps_failed_fresh. Qed.
-Check C05_failure_mark_survives_checks : forall g fuel runid w c f mx seen v w' c' evs,
-  is_dirty fuel runid w c f (load runid (dbs w) f) mx seen = Ret (v, w', c', evs) ->
+Check C05_failure_mark_survives_checks : forall g fuel runid cyc w c f mx seen v w' c' evs,
+  is_dirty fuel runid cyc w c f (load runid (dbs w) f) mx seen = Ret (v, w', c', evs) ->
   r_failed (get_row (dbs w) g) <> None -> r_failed (get_row (dbs w') g) <> None.
 Print Assumptions C05_failure_mark_survives_checks.
 
